@@ -277,6 +277,13 @@ class DictWriter:
                 "name": instruction.name,
                 "type": self.write_type(instruction.ty),
             }
+        elif isinstance(instruction, ir.CopyBlob):
+            json_instruction = {
+                "kind": "copyblob",
+                "dst": self.write_value_ref(instruction.dst),
+                "src": self.write_value_ref(instruction.src),
+                "amount": instruction.amount,
+            }
         elif isinstance(instruction, ir.LiteralData):
             json_instruction = {
                 "kind": "literaldata",
@@ -526,6 +533,11 @@ class DictReader:
             ty = self.get_type(json_instruction["type"])
             instruction = ir.Undefined(name, ty)
             self.register_value(instruction)
+        elif itype == "copyblob":
+            dst = self.get_value_ref(json_instruction["dst"])
+            src = self.get_value_ref(json_instruction["src"])
+            amount = json_instruction["amount"]
+            instruction = ir.CopyBlob(dst, src, amount)
         elif itype == "literaldata":
             name = json_instruction["name"]
             data = asc2bin(json_instruction["data"])
